@@ -136,7 +136,69 @@ def fixed_scenarios(seed):
     # 7. age-band pools (AgeGroup objects of every cache setting, separate and shared) over births, deaths and fast ageing
     from harness.props import c12_groups
     out.append(c12_groups.ageband_cfg(s, 0))
+    # 9. (round 5) the plural container over EVERY kind of group selector a single pool accepts — explicit uid lists, callables,
+    #    None, AgeGroup objects — under heavy mortality, with a disease that keeps its flags on death (SIS) and one that clears
+    #    them (SIR): each sub-pool's groups must be the groups its parameters denote on the population of the step
+    out.append(poolsmix_cfg(s, 0))
+    # 10. (round 5) transmissibilities given as exactly 0 by a plain number on every kind of route (networks, a pool, the plural
+    #     container) next to positive ones, and changed DURING the run through the public handles (`*=`, `/=`, `.set`, `pars.update`)
+    #     incl. to exactly 0: the beta in force must be the one the user's configuration and actions denote
+    out.append(betazero_cfg(s, 0))
+    out.append(betasched_cfg(s, 0))
     return out
+
+
+def poolsmix_cfg(seed, variant=0):
+    s = int(seed) + int(variant)
+    n = 120
+    src = [['lo', 'uids_lo'], ['women', 'female'], ['kids', dict(age=[0, 15], do_cache=[None, True, False][s % 3])], ['mid', 'uids_mid']]
+    dst = [['hi', 'uids_hi'], ['everybody', 'all'], ['mid', 'uids_mid'], ['adults', dict(age=[15, None], do_cache=[False, None, True][s % 3])]]
+    if variant % 2:
+        src, dst = dst[:3], src[:3]
+    contacts = [[[2.0, 1.0, 1.5, 0.5][(i + j + s) % 4] for j in range(len(dst))] for i in range(len(src))]
+    return dict(family='poolsmix', n_agents=n, rand_seed=2800 + s, dt=1.0, npts=8,
+                networks=[dict(type='pools', beta=[0.9, 0.6][s % 2], contacts=contacts, src_groups=src, dst_groups=dst, n_agents=n)],
+                demographics=[dict(type='deaths', death_rate=[250, 180][s % 2])] + ([dict(type='births', birth_rate=40)] if s % 3 == 0 else []),
+                diseases=[dict(type='sis', init_prev=0.5, log=True, beta=dict(kind='scalar', v=0.0, tp=False)),
+                          dict(type='sir', init_prev=0.3, beta=dict(kind='scalar', v=0.0, tp=False))],
+                rel=None if s % 2 else dict(seed=91 + s, p_zero=0.1, edge_beta=False))
+
+
+def betazero_cfg(seed, variant=0):
+    s = int(seed) + int(variant)
+    n = 110
+    z = s % 3      # which of the routes carry a positive transmissibility besides the zeros
+    nets = [dict(type='random', n_contacts=4, dur=0), dict(type='static', n_contacts=3), dict(type='mf', duration=3),
+            dict(type='pool', src='all', dst='all', beta=0.0 if z != 0 else 0.7, timepar=False, contacts=3, n_agents=n, name='zpool'),
+            dict(type='pools', beta=0.0 if z != 1 else 0.8, contacts=[[2.0, 1.0], [1.0, 2.0]], split=30)]
+    return dict(family='betazero', n_agents=n, rand_seed=2900 + s, dt=[1.0, 0.5, 0.25][s % 3], npts=5, networks=nets,
+                demographics=[dict(type='deaths', death_rate=20)] if s % 2 else [],
+                diseases=[dict(type=['sis', 'sir', 'hiv', 'gonorrhea'][s % 4], init_prev=0.4, log=True, beta=dict(kind='scalar', v=0.0, tp=False)),
+                          dict(type=['measles', 'cholera', 'ebola', 'syphilis'][s % 4], init_prev=0.3,
+                               beta=dict(kind='scalar', v=[0.0, 0.3, 1.0][z], tp=False))],
+                rel=dict(seed=101 + s, p_zero=0.0, edge_beta=False))
+
+
+def betasched_cfg(seed, variant=0):
+    s = int(seed) + int(variant)
+    n = 110
+    ops = ['imul', 'set', 'update', 'mul', 'idiv']
+    sched = [dict(ti=1, disease=0, op=ops[s % 5] if ops[s % 5] != 'idiv' else 'imul', x=0.5),
+             dict(ti=2, disease=1, op=['imul', 'set', 'update', 'mul'][(s + 1) % 4], x=0.0),
+             dict(ti=3, disease=0, op=['set', 'imul', 'mul', 'update'][s % 4], x=0.0),
+             dict(ti=3, route=2, op=['imul', 'set'][s % 2], x=0.0),
+             dict(ti=4, disease=1, op='set', x=0.8),
+             dict(ti=5, disease=0, op=['update', 'set'][s % 2], x=0.25),
+             dict(ti=5, route=2, op='set', x=0.5)]
+    d1beta = (dict(kind='scalar', v=0.7, tp=True) if s % 2 else
+              dict(kind='dict', entries={'random': [dict(v=0.5, tp=True), dict(v=0.9, tp=True)], 'STATIC': dict(v=0.6, tp=True), 'mixingpool': dict(v=0.0, tp=False)}))
+    return dict(family='betasched', n_agents=n, rand_seed=3000 + s, dt=[0.5, 1.0][s % 2], npts=8,
+                networks=[dict(type='random', n_contacts=4, dur=0), dict(type='static', n_contacts=3),
+                          dict(type='pool', src='all', dst='all', beta=0.6, timepar=bool(s % 2), contacts=2, n_agents=n)],
+                demographics=[],
+                diseases=[dict(type='sis', init_prev=0.3, beta=dict(kind='scalar', v=0.8, tp=bool((s // 2) % 2))),
+                          dict(type='sir', init_prev=0.2, beta=d1beta)],
+                rel=None, beta_sched=sched)
 
 
 # ---------------------------------------------------------------------------
